@@ -119,6 +119,26 @@ func init() {
 		if err != nil || !bytes.Equal(back, data) {
 			fs = append(fs, Failure{Kind: "oracle", Key: "bx_roundtrip", Desc: fmt.Sprintf("DecodeString(EncodeToString(x)) = %x, %v", back, err)})
 		}
+		// Encode into the front of a larger, reused destination (the documented contract: EncodedLen(len(src)) bytes of
+		// dst are written): the same characters, nothing beyond them; Decode into a larger destination likewise
+		for _, extra := range []int{1, 7, 64} {
+			dst := bytes.Repeat([]byte{'#'}, len(got)+extra)
+			if pe := guard(func() error { e.enc.Encode(dst, data); return nil }); pe != nil {
+				fs = append(fs, Failure{Kind: "oracle", Key: "bx_encode-into-larger-buffer", Desc: fmt.Sprintf("Encode into a buffer %d bytes larger: %v", extra, pe)})
+				break
+			}
+			if string(dst[:len(got)]) != got || !bytes.Equal(dst[len(got):], bytes.Repeat([]byte{'#'}, extra)) {
+				fs = append(fs, Failure{Kind: "oracle", Key: "bx_encode-into-larger-buffer", Desc: fmt.Sprintf("Encode of %d bytes into a buffer %d bytes larger than EncodedLen wrote %q, want %q followed by untouched bytes", len(data), extra, clip(string(dst), 120), got)})
+				break
+			}
+			out := bytes.Repeat([]byte{0xEE}, len(data)+extra)
+			var n int
+			var derr error
+			if pe := guard(func() error { n, derr = e.enc.Decode(out, []byte(got)); return nil }); pe != nil || derr != nil || n != len(data) || !bytes.Equal(out[:n], data) || !bytes.Equal(out[n:], bytes.Repeat([]byte{0xEE}, extra)) {
+				fs = append(fs, Failure{Kind: "oracle", Key: "bx_decode-into-larger-buffer", Desc: fmt.Sprintf("Decode of %q into a buffer %d bytes larger than needed: n=%d err=%v panic=%v out=%x", clip(got, 60), extra, n, derr, pe, out)})
+				break
+			}
+		}
 		return
 	}, trivial: func(c Case) bool { return c.A["data"] == "-" }}
 
